@@ -15,6 +15,7 @@ EXPLANATION = (
     '(R3 also: an address is never hashed, ordered or turned into a number outside the allocator.) '
     "(R2 also: callbacks given to the async runtime are run inside the future the seeded runtime drives.) "
     "(R3 also: no public function returns a RandomState-hashed collection; R6) a by-value setter of the runtime builder returns the builder it was given or one whose every field is that builder's or computed from the setter's arguments - the seed survives every other option. "
+    "(R1 also: the net layer's process-wide state is attached by buf_init only after the net-statics guard was obtained.) "
     "Decides these necessary conditions only; not equality of two observable traces.")
 ASSUMPTIONS = ["tokio's scheduler is deterministic given rng_seed and a current-thread runtime", "StdRng is deterministic given its seed"]
 
